@@ -87,4 +87,7 @@ package builtins
 // on the next line). sorted(map) must obtain the keys through Map.Keys(), which sorts.
 //@ scan[C05.stringkeys.callers.builtins] C05 extcalls github.com/risor-io/risor/object.(*Map).StringKeys: encodeCsv
 
-//@ scan[C05.maploops.builtins] C05 maprange builtins:
+// C05: inventory of the Go-map range loops of package builtins.
+//   All#1, Any#1: range over the items of a set with an early exit; the result is the conjunction / disjunction of
+//   the members' truthiness, which does not depend on the order (IsTruthy has no side effect).
+//@ scan[C05.maploops.builtins] C05 maprange builtins: All#1 Any#1
